@@ -133,3 +133,18 @@ func VerifH_done() {
 	verifObserve("streams", uint64(on.streamsCnt))
 	verifObserve("deCalls", uint64(on.deCalls))
 }
+
+// Independent (mathematical) form of the detection window: ms * 2^k milliseconds, against the
+// code's uint32(1<<k)*ms expression - within the stated bound ms*2^k < 2^32.
+func VerifH_window() {
+	w := verifMkWorld()
+	cp := w.gb.cfg.ChannelPool
+	ref := w.refs[0]
+	k := ref.refreshCnt
+	verifAssume(k < 32 && (uint64(cp.UnresponsiveDetectionMs)<<k) < 1<<32)
+	got := w.pk.unresponsiveWindow(ref)
+	want := time.Duration((uint64(cp.UnresponsiveDetectionMs)<<k)*1000000) * time.Nanosecond
+	verifReach("after")
+	verifAssert(got == want, "C07: detection window is not unresponsive_detection_ms x 2^k")
+	verifObserve("window", uint64(got))
+}
